@@ -14,7 +14,7 @@ import re
 
 S = Sym
 PROPERTY = 'C06'
-PROPS_MODULES = ['C06', 'C06b', 'C06c', 'C01c', 'C06d', 'C06e', 'C06f', 'C06g', 'C06h', 'C06j', 'C06k', 'C18b']
+PROPS_MODULES = ['C06', 'C06b', 'C06c', 'C01c', 'C06d', 'C06e', 'C06f', 'C06g', 'C06h', 'C06j', 'C06k', 'C18b', 'C01e', 'C06m']
 ASSUMPTIONS = ['the printed text is compared with the model printer token by token, numeric tokens by value (Python float formatting of '
                'time bounds is outside the exact model)']
 
@@ -202,9 +202,9 @@ def run(ctx):
     rt = {'checked': 0, 'printable': 0, 'toks_equal': 0, 'read_back': 0, 'literal_tokens_complete': 0, 'model_text_is_chars': 0}
     if ctx.driver is not None:
         # (trees with an own field named like a logic keyword are outside `Raw.printable`: known finding, judged above)
-        rt_src = [(entry, src, ast) for entry, src, _, _, ast in items if entry in ('expression', 'predicate') and not own_logic_kw(ast)]
+        rt_src = [(entry, src, ast) for entry, src, _, _, ast in items if entry in ('expression', 'predicate')]
         rt_items = list(rt_src)
-        rt_items += [(entry, str(ast), ast) for entry, src, ast in rt_src if not (entry == 'predicate' and ast.is_vacuous)]
+        rt_items += [(entry, str(ast), ast) for entry, src, ast in rt_src if not (entry == 'predicate' and ast.is_vacuous) and not own_logic_kw(ast)]
         # property level (Props/C06c): the printed form of every parsed property
         rt_items += [('property', str(ast), ast) for entry, src, _, _, ast in items if entry == 'property' and src not in kwfam_texts]
         am = ctx.driver.run_parallel([dumps([S('rtcheck'), S(entry), src]) for entry, src, _ in rt_items])
@@ -213,6 +213,16 @@ def run(ctx):
             if x[0] != 'ok':
                 disagreements.append({'input': {'entry': entry, 'source': src}, 'impl': 'accepted', 'model': str(x), 'op': 'rtcheck'})
                 continue
+            if entry != 'property':
+                # `Raw.goodNames` (hypothesis of parse_print_parse, Props/C06m) is the model's name for "not in the known-finding family"
+                good = str(x[6]) == '1'
+                rt['good_names'] = rt.get('good_names', 0) + good
+                if good == own_logic_kw(ast):
+                    disagreements.append({'input': {'entry': entry, 'source': src}, 'op': 'rtcheck', 'impl': {'own_field_named_like_logic_keyword': own_logic_kw(ast)},
+                                          'model': {'goodNames': good}, 'what': 'the model and the harness classify this tree differently (known-finding family)'})
+                if not good:
+                    rt['outside_good_names'] = rt.get('outside_good_names', 0) + 1
+                    continue
             rt['checked'] += 1
             flags = [str(v) == '1' for v in x[1:5]]
             if entry == 'property':
